@@ -2,7 +2,7 @@
 #   pkgs        packages loaded (the harness overlay is injected into them)
 #   bounds      stated bounds per tier (copied into the evidence)
 #   level_text  what the check decides; level_note: what is assumed / trusted
-NOT_APPLICABLE = {"C09": "check built (see DESIGN.md section 3); two findings on the mutual-TLS listener are being confirmed natively before the check is registered"}
+NOT_APPLICABLE = {}
 
 _TRUST = ("Trusted: go/ssa lowering, the gosym interpreter, z3; stubs listed in the evidence (logger = no effect, "
           "highwayhash = injective function, context = model, encoding/json = value-preserving blob, timers fire only at quiescence). "
@@ -249,7 +249,6 @@ CHECKS = {
         "level_note": _TRUST + " For this property the claim is deliberately narrow: the reliable-pipe behaviour itself rests on quic-go.",
     },
     "C09": {
-        "claimed": False,  # until the two listener findings are confirmed natively and repaired / listed
         "pkgs": ["./pkg/netceptor"],
         "bounds": "0..2 presented certificates (each parsing or not) x 0..2 pins of length {28,32,48,64,5,0,33} with arbitrary bytes x chain verdict x "
                   "receptor names {decode error, none, [ex], [ot], [ot,ex,e]} x DNS/receptor mode x server/client/invalid role x expected name "
